@@ -26,7 +26,7 @@
      6 fault                            assert / sanitizer abort
      8 start_enc_req_unrequested        LL_START_ENC_REQ without any LL_ENC_REQ in this connection
    [air] = false switches the on-air clauses off (the part of the monitor for which acceptance of every model trace is
-   proved without reasoning about the transmit queue; see LLProofsC28.v). *)
+   proved without reasoning about the transmit queue, LLProofsC28.v; the complete monitor: LLProofsC28Air.v). *)
 From Coq Require Import NArith List Bool.
 From BT Require Import Base.ListX LL.LLModel LL.LLSpec.
 Import ListNotations.
